@@ -356,6 +356,103 @@ def pool_free_rule(rep, f, rid="C15.f"):
     rep.floor(rid, n, 3)
 
 
+def pooled_strings_rule(rep, f):
+    rep.rule("C15.g", "a DOM document owns the strings it points to: every string the tree builder stores into a node's PSVI type "
+             "information (DOMTypeInfoImpl::setStringProperty in AbstractDOMParser) is either copied into the document's string pool "
+             "(fDocument->getPooledString(..)) or a static constant of the library — never a pointer into grammar, validator or "
+             "PSVI memory, which is released by the next parse, resetCachedGrammarPool() or the parser's destruction while an "
+             "adopted document lives on")
+    n = 0
+    for x in f.kind("call"):
+        c = x["x"]
+        if c[1].split("::")[-1] != "setStringProperty" or x["_fn"].get("cls") != "AbstractDOMParser" or len(c[3]) < 2:
+            continue
+        n += 1
+        a = c[3][1]
+        while a[0] == "cast":
+            a = a[2]
+        ok = (a[0] == "c" and a[1].split("::")[-1] == "getPooledString") or a[0] == "g" or a == ["i", 0]
+        rep.ob("C15.g", "%s@setStringProperty:%s" % (x["_fn"]["q"], x.get("l")), ok, "pooled or static" if ok else
+               "%s (line %s) stores %s into the node's type information without copying it into the document's string pool: the "
+               "pointer dangles once the grammar it belongs to is released" % (x["_fn"]["q"], x.get("l"), sx_str(a)),
+               "%s:%s" % (x["_fn"]["file"], x.get("l", 0)))
+    rep.floor("C15.g", n, 12)
+
+
+GRAMMAR_SYNC_EXEMPT = {
+    "IGXMLScanner::scanReset": "with a validator supplied by the user that handles schemas only, the DTD grammar installed at reset is "
+                               "not handed to it (it gets its grammars through the resolver)",
+}
+
+
+def grammar_sync_rule(rep, f):
+    rep.rule("C15.h", "the validator validates against the scanner's current grammar: in every scanner function that both installs a "
+             "grammar (assigns XMLScanner::fGrammar) and hands one to the validator (fValidator->setGrammar), each assignment is "
+             "followed on every normal path by a setGrammar call (CFG must-follow) — a validator left with the previous, e.g. the "
+             "empty scratch grammar after a cached grammar was installed, checks ENTITY/ID attributes against the wrong declarations")
+    fns = {}
+    for x in f.kind("asg"):
+        if x["lhs"] == ["f", "XMLScanner::fGrammar"]:
+            fns.setdefault((x["_fn"]["q"], x["_fn"]["file"]), [0, 0])[0] += 1
+    for x in f.kind("call"):
+        c = x["x"]
+        if c[1].split("::")[-1] == "setGrammar" and c[2] and c[2][0] == "f" and c[2][1].endswith("::fValidator"):
+            k = (x["_fn"]["q"], x["_fn"]["file"])
+            if k in fns:
+                fns[k][1] += 1
+    both = {k: v for k, v in fns.items() if v[1]}
+    if len(both) < 12:
+        raise AnalysisBroken("C15.h: fewer than 12 functions install a grammar and hand it to the validator (%d)" % len(both))
+    tus = sorted({os.path.join(core.REPO, fl) for (_, fl) in both if fl.endswith(".cpp")})
+    g = core.run_xa(tus, cfg="^(" + "|".join(sorted({re.escape(q) for (q, _) in both})) + ")$", flat=False)
+    n = 0
+    for (q, fl) in sorted(both):
+        for raw in g.cfgs.get(q, []):
+            cfg = guard.Cfg(raw)
+
+            def isa(el):
+                x = el.get("x")
+                return bool(x) and x[0] == "b" and x[1] == "=" and x[2] == ["f", "XMLScanner::fGrammar"]
+
+            def isb(el):
+                return any(c[0] == "c" and c[1].split("::")[-1] == "setGrammar" and c[2] and c[2][0] == "f" and c[2][1].endswith("::fValidator")
+                           for c in guard.el_top_calls(el))
+            for b, i, el, ok in guard.must_follow(cfg, isa, isb):
+                n += 1
+                ok2 = ok or q in GRAMMAR_SYNC_EXEMPT
+                rep.ob("C15.h", "%s@fGrammar:%s" % (q, el.get("l")), ok2,
+                       ("validator updated afterwards" if ok else "exempt: " + GRAMMAR_SYNC_EXEMPT[q]) if ok2 else
+                       "%s (line %s) installs a grammar in fGrammar and can return without handing it to the validator: the validator "
+                       "keeps the grammar it was given before" % (q, el.get("l")), "%s:%s" % (fl, el.get("l", 0)))
+    rep.floor("C15.h", n, 15)
+
+
+def slot_once_rule(rep, rid="C15.i"):
+    from ..engines import advance
+    rep.rule(rid, "every slot of the scanner's unsigned-int pool is handed out once: XMLScanner::getNewUIntPtr interpreted on both of "
+             "its paths (room left in the current row / a new row is started): the pointer returned is slot (new column - 1) of the "
+             "row that is current afterwards — the counters of two different declared attributes otherwise share one cell and the "
+             "65th and 66th attribute of a document are reported as duplicates of each other")
+    g = core.run_xa([os.path.join(core.REPO, "src/xercesc/internal/XMLScanner.cpp")], st=r"^XMLScanner::getNewUIntPtr$", flat=False)
+    body = g.st("XMLScanner::getNewUIntPtr")["body"]
+    n = 0
+    for col0, what in ((5, "room left in the row"), (63, "last slot of the row"), (64, "row full: a new row is started")):
+        env = {"f:XMLScanner::fUIntPoolCol": col0, "f:XMLScanner::fUIntPoolRow": 2, "f:XMLScanner::fUIntPoolRowTotal": 8,
+               "arr:XMLScanner::fUIntPool": lambda i, st: i * 1000}
+        it = advance.Interp()
+        outs = []
+        for kind, s2 in it.run(body, advance.State(env)):
+            outs.append((kind, s2.v.get("__ret"), s2.v.get("f:XMLScanner::fUIntPoolRow"), s2.v.get("f:XMLScanner::fUIntPoolCol")))
+        n += 1
+        ok = len(outs) == 1 and outs[0][0] == "return" and all(isinstance(v, int) for v in outs[0][1:]) and \
+            outs[0][1] == outs[0][2] * 1000 + outs[0][3] - 1 and 1 <= outs[0][3] <= 64
+        rep.ob(rid, "getNewUIntPtr/col=%d" % col0, ok, "%s: returns slot %s of row %s, next free column %s" % (
+            what, outs[0][1] % 1000 if ok else "?", outs[0][2] if ok else "?", outs[0][3] if ok else "?") if ok else
+            "XMLScanner::getNewUIntPtr (%s): returns %s with row %s and next free column %s afterwards — the slot returned is not the one "
+            "just before the next free column, so it is handed out twice or skipped" % (what, [o[1] for o in outs], [o[2] for o in outs], [o[3] for o in outs]),
+            "src/xercesc/internal/XMLScanner.cpp")
+
+
 def run(rep):
     f = core.library_facts()
     rep.units.update(os.path.relpath(t, core.REPO) for t in f.tus)
@@ -364,6 +461,9 @@ def run(rep):
     locked_pool_rule(rep, f)
     row_reset_rule(rep, f)
     pool_free_rule(rep, f)
+    pooled_strings_rule(rep, f)
+    grammar_sync_rule(rep, f)
+    slot_once_rule(rep)
     diag.run(rep, f, "C15")
     rep.undecided += ["equality of the n-th parse's outcome with a fresh parser's (value-level)",
                       "transparency of cached/preloaded grammars for validation verdicts",
